@@ -478,6 +478,8 @@ def main(pid, tier, repo=None):
     rule_chanorder(ctx)
     rule_orient_order(ctx)
     rule_narrowcast(ctx)
+    from . import c05
+    c05.rule_orient_scope(ctx)        # the orientation is applied at the API boundary only
     ctx.not_decided("float->integer rounding; sample-by-sample equality between interleaved, planar and stream outputs")
     return ctx.finish(
         "The coordinate-map half of the property, for all image sizes and coordinates at once: the three hand-written copies of the "
